@@ -240,6 +240,62 @@ theorem pp_avoids_other_two_qubit_gates_fails_on_current_code :
   intro h
   exact h witnessGates (0, 1) (0, 1) (by decide +kernel) (by decide +kernel) (Or.inl ⟨rfl, rfl⟩)
 
+/-! ## cQASM front-end: which qubit a gate operand is sent to
+
+`CQASMConverter` flattens the declared variables into `_qubit_list` (declaration order), names the ports
+after it and resolves every operand with `list.index`.  For all declaration lists: the qubit an operand is
+sent to is the one whose port carries the name written in the program, two different references never share
+a qubit, the index is in range; and, when the variable's name is not declared before, the index is the
+closed form "total width of the variables declared before + i" (independent of what is declared after). -/
+
+/-- closed form of the index of an array element: the widths of the variables declared before, plus `i` -/
+theorem operand_index_array (pre post : List Decl) (nm : String) (k i : ℕ) (hi : i < k)
+    (hn : nm ∉ pre.map Decl.name) :
+    operandIndex (pre ++ ⟨nm, some k⟩ :: post) (nm, Int.ofNat i) = some ((pre.map declWidth).sum + i) := by
+  have hnot : (nm, Int.ofNat i) ∉ qubitList pre := fun h => hn (mem_qubitList_name h)
+  have hin : (nm, Int.ofNat i) ∈ declQubits ⟨nm, some k⟩ := by
+    simp only [declQubits]
+    exact List.mem_map.2 ⟨i, List.mem_range.2 hi, rfl⟩
+  unfold operandIndex
+  rw [qubitList_append, qubitList_cons]
+  rw [if_pos (List.mem_append_right _ (List.mem_append_left _ hin))]
+  rw [List.idxOf_append_of_notMem hnot, List.idxOf_append_of_mem hin, qubitList_length]
+  simp only [declQubits]
+  rw [idxOf_range_map nm k i hi]
+
+theorem operand_index_single (pre post : List Decl) (nm : String) (hn : nm ∉ pre.map Decl.name) :
+    operandIndex (pre ++ ⟨nm, none⟩ :: post) (nm, -1) = some ((pre.map declWidth).sum) := by
+  have hnot : (nm, (-1 : ℤ)) ∉ qubitList pre := fun h => hn (mem_qubitList_name h)
+  have hin : (nm, (-1 : ℤ)) ∈ declQubits ⟨nm, none⟩ := by simp [declQubits]
+  unfold operandIndex
+  rw [qubitList_append, qubitList_cons]
+  rw [if_pos (List.mem_append_right _ (List.mem_append_left _ hin))]
+  rw [List.idxOf_append_of_notMem hnot, List.idxOf_append_of_mem hin, qubitList_length]
+  simp [declQubits]
+
+/-- the qubit a gate operand is sent to carries the name written in the program -/
+theorem operand_lands_on_named_qubit (ds : List Decl) (ref : String × ℤ) (k : ℕ)
+    (h : operandIndex ds ref = some k) : (qubitList ds)[k]? = some ref := by
+  unfold operandIndex at h
+  split at h
+  · rename_i hm
+    cases h
+    exact List.getElem?_idxOf hm
+  · cases h
+
+theorem operand_index_injective (ds : List Decl) (r₁ r₂ : String × ℤ) (k : ℕ)
+    (h₁ : operandIndex ds r₁ = some k) (h₂ : operandIndex ds r₂ = some k) : r₁ = r₂ := by
+  have a := operand_lands_on_named_qubit ds r₁ k h₁
+  have b := operand_lands_on_named_qubit ds r₂ k h₂
+  rw [a] at b
+  exact Option.some.inj b
+
+theorem operand_index_in_range (ds : List Decl) (ref : String × ℤ) (k : ℕ)
+    (h : operandIndex ds ref = some k) : k < (ds.map declWidth).sum := by
+  have a := operand_lands_on_named_qubit ds ref k h
+  rw [← qubitList_length]
+  exact (List.getElem?_eq_some_iff.1 a).1
+
 /-! ## non-vacuity -/
 
 example : Implements (1 : Matrix (Fin 2) (Fin 2) ℚ) ((3 : ℚ) • 1) := ⟨3, rfl⟩
@@ -265,5 +321,13 @@ example : [((1 : ℕ), (2 : ℕ)), ((0 : ℕ), (1 : ℕ))].isSubperm
 -- regression witness of the pinned behaviour and of the repaired one on the same circuit
 example : labelCnots false witnessGates = ["postprocessed cnot", "cz"] := by decide +kernel
 example : labelCnots true witnessGates = ["heralded cnot", "cz"] := by decide +kernel
+
+-- cQASM declarations: hypotheses are satisfiable, on the shape `qubit[2] a; qubit b; qubit[2] c`
+example : operandIndex [⟨"a", some 2⟩, ⟨"b", none⟩, ⟨"c", some 2⟩] ("c", 1) = some 4 ∧
+    operandIndex [⟨"a", some 2⟩, ⟨"b", none⟩, ⟨"c", some 2⟩] ("b", -1) = some 2 ∧
+    operandIndex [⟨"a", some 2⟩, ⟨"b", none⟩, ⟨"c", some 2⟩] ("b", 0) = none ∧
+    qubitNames [⟨"a", some 2⟩, ⟨"b", none⟩] = ["a[0]", "a[1]", "b"] := by decide +kernel
+
+example : "c" ∉ ([⟨"a", some 2⟩, ⟨"b", none⟩] : List Decl).map Decl.name := by decide +kernel
 
 end PM.C20
